@@ -67,9 +67,12 @@ CHECKS = {
         text='Every path of the real check_build_status / bypass_build_status is executed on symbolic statuses '
              '(5 values per integration tip, 1-4 tips), symbolic bypass sources and build-key truthiness; z3 decides, per '
              'path, outcome class == statement oracle for all values. A status read on any other commit or key is a fresh '
-             'unconstrained value, so reading the wrong tip is refuted.',
-        note='Trusts z3 and the SEnum proxy (validated by witness replay on the real function). History clause '
-             '(superseded tips) is covered by the symgit runs, not here.',
+             'unconstrained value, so reading the wrong tip is refuted. The complete handler on the symbolic repository (no-queue / queue / '
+             'skip-queue) with the monitors "queued only if every integration tip is green" and "what is merged directly was built with '
+             'its destination inside"; the same monitors along histories evaluate / source pushed / evaluate twice (DESIGN 11). The '
+             'per-author source of the bypass goes through the real settings loader (PrAuthorsOptions.deserialize).',
+        note='Trusts z3 and the SEnum proxy (validated by witness replay on the real function). Handler and history parts: 2 targets '
+             '(thorough 3), git log answers empty, build results are functions of the commit content in histories.',
         design='3/C06', technique=TECH),
     'C08': dict(
         text='In the symbolic runs of C01/C02 every remote update is monitored: destinations move only by fast-forward '
@@ -101,9 +104,13 @@ CHECKS = {
         text='The real handle_pull_request runs up to clone_git_repo with a repository stub that raises on any git command and a '
              'host stub that raises on any write but comments; PR status, wait comment, up to two after_pull_request comments '
              '(open/merged/declined/unknown/non-numeric ids), dependency statuses and prior greeting are symbolic; z3 decides '
-             'outcome class and number of comments against the statement per path. rx2z3: handled source/destination languages.',
-        note='Partial: the step is history-free, positions inside histories are not explored; what happens after the clone '
-             'belongs to other properties.',
+             'outcome class and number of comments against the statement per path (the spelling of the hold comment is a solver-chosen '
+             'element of the addressed-comment grammar). rx2z3: handled source/destination languages. Histories (DESIGN 11): on the '
+             'symbolic repository a hold (wait; after_pull_request on an open PR) is added before / after a first evaluation, the PR is '
+             'evaluated twice (no ref update, nothing but the hold message), the hold is lifted (comment removed / dependency merged) and '
+             'the next evaluation must equal the evaluation of the never-held PR from the same state.',
+        note='Partial: hold positions are those of the listed histories (2 targets, no-queue and queue mode); what happens after the '
+             'clone belongs to other properties.',
         design='3/C12', technique=TECH),
     'C13': dict(
         text='(a) real process_task/process with a handler raising each exception kind (incl. an exception whose __str__ raises): '
@@ -204,9 +211,11 @@ CHECKS['C20'] = dict(
          'symbolic commit, queued PR present or not, queues on/off). z3 decides per path: a new destination is published only if not '
          'archived, cascade-valid, C01 holds on the new cascade and no queued PR needs new intermediate branches; delete refuses iff '
          'queued PRs / live stabilization / archived and otherwise tags the deleted tip first; refusing jobs leave the remote '
-         'untouched; queue jobs touch only q/* and rebuild re-submits exactly the queued PRs.',
-    note='Partial: states reachable only through whole histories. One witness per configuration is re-run on a real repository with '
-         '/usr/bin/git (outcome and remote change compared).',
+         'untouched; queue jobs touch only q/* and rebuild re-submits exactly the queued PRs. Hotfix branches with several hotfix queues. '
+         'Histories (DESIGN 11): the jobs also run in states reached by the real handler (pull requests queued by real evaluations): '
+         'delete a targeted / an untargeted branch, create an intermediate / the newest branch, rebuild with two PRs queued.',
+    note='Partial: bounded to the listed configurations and histories. One witness per configuration is re-run on a real repository '
+         'with /usr/bin/git (outcome and remote change compared).',
     design='3/C20', technique=TECH_GIT)
 
 NA_REASON = 'check not built yet in this revision of /verif (see DESIGN.md section 6 build order)'
